@@ -148,7 +148,7 @@ func Compare
   requires nonul(a.Version) && nonul(b.Version) && nonul(a.Revision) && nonul(b.Revision)
   ensures sgn(result) == vspec(a, b)
 
-property C01: cisdigit, cisalpha, order, verrevcmp, Compare,
+property C01: cisdigit, cisalpha, order, verrevcmp, Compare, Slice.Less,
   lemma val_nonneg, lemma val_mono, lemma peel_zero, lemma longer_wins
 
 // ---------- C02: the specification is a total preorder ----------
